@@ -254,7 +254,7 @@ def make_scenario(job, groups):
         def answer(p):
             kind = p.kind
             if kind == "coordinator":
-                o = fault_or_ok(kind, ["coordinator_not_available", "timeout", "non_kafka"] if "progress" in groups else ["coordinator_not_available"])
+                o = fault_or_ok(kind, ["coordinator_not_available", "timeout", "non_kafka"] if "progress" in groups else ["coordinator_not_available", "timeout"])
                 if o == "ok":
                     client.resolve(p, BrokerMetadata(5, "coord", 9092))
                 else:
